@@ -32,7 +32,7 @@ TOLERANCES = {"residual": 1e-12, "modulus": 1e-10, "root": 1e-9, "zone": 1e-9}
 
 def bound(tier):
     return {
-        "quick": "|psi| in {0,1e-8,0.1,0.5,1,1.5,3} x 4 phases x mu {0,+-0.3,+-50} x eps {-1,0,0.5,1} x 9 Laplacian actions x gamma {0,0.1,1,10,100} x u {0.5,1,5.79} x dt 1e-10..1 (11 decades); 8 recorded runs (field, current, time-dependent epsilon vectorised and per site)",
+        "quick": "|psi| in {0,1e-8,0.1,0.5,1,1.5,3} x 4 phases x mu {0,+-0.3,+-50} x eps {-1,0,0.5,1} x 9 Laplacian actions x gamma {0,1e-4,0.1,1,10,100} x u {0.5,1,5.79} x dt 1e-10..1 (11 decades); 8 recorded runs (field, current, time-dependent epsilon vectorised and per site)",
         "thorough": "same + |psi| in {1e-100,1e-160,1e-30}, dt up to 10, 17 Laplacian actions, 8 phases; 48 recorded runs (4 drives x 3 dt_init x 2 gamma x 2 u)",
     }[tier]
 
@@ -41,7 +41,7 @@ def floors(tier):
     return {"distinct_nontrivial": 50, "count:zoneA_points": 100000, "count:zoneC_points": 500, "count:recorded_calls": 100, "count:recorded_refusals": 1, "count:recorded_steps_with_retries": 20}
 
 
-GAMMAS = [0.0, 0.1, 1.0, 10.0, 100.0]
+GAMMAS = [0.0, 1e-4, 0.1, 1.0, 10.0, 100.0]
 US = [0.5, 1.0, 5.79]
 
 
